@@ -28,3 +28,23 @@ if not getattr(Dialect, "_verif_shim", False):
 
     Dialect.__hash__ = _native_dhash
     Dialect._verif_shim = True
+
+
+# 2. camel_to_snake_case (a regex substitution on *class names*, always concrete) runs under NoTracing():
+#    CrossHair 0.0.110's own regex engine, which it substitutes for `re` even on concrete strings, drops a character
+#    ("CurrentTimestamp" -> "CURRENT_IMESTAMP"; measured), which made generated SQL differ under tracing only.
+import sqlglot.helper as _helper
+
+if not getattr(_helper, "_verif_shim", False):
+    _orig_c2s = _helper.camel_to_snake_case
+
+    def _native_c2s(name):
+        with NoTracing():
+            return _orig_c2s(name)
+
+    import sys as _sys
+
+    for _m in list(_sys.modules.values()):
+        if _m is not None and getattr(_m, "__name__", "").startswith("sqlglot") and getattr(_m, "camel_to_snake_case", None) is _orig_c2s:
+            setattr(_m, "camel_to_snake_case", _native_c2s)
+    _helper._verif_shim = True
